@@ -39,6 +39,7 @@ def run(facts, rep):
     d2_handoff(facts, rep)
     d3_tokens(facts, rep)
     d4_wait(facts, rep)
+    d5_ring(facts, rep)
 
 
 def d1_lock(facts, rep):
@@ -224,3 +225,89 @@ def d4_wait(facts, rep):
         rep.ob('D4', 'K4', fn, 'a pending item is finalised before the wait reference is dropped', ok2, 'filter finalize after release / missing')
     k7_task_class(facts, rep, 'D4', R1 + 'stage_task', {})
     rep.floor('D4', 5, 'wait accounting')
+
+
+
+# ---------------------------------------------------------------------------------------------------------------
+def d5_ring(facts, rep):
+    """The parked-token ring: an item with token t is stored at array[t & (array_size-1)] while low_token..low_token+
+    array_size-1 are the tokens the ring can hold.  Necessary: on every path to the store, t - low_token < array_size is
+    known -- from the branch that tested it, or because grow(m) was called with m >= t - low_token + 1 (grow guarantees
+    array_size >= m, checked on grow itself).  A ring that is one slot short parks the item in the slot of another live
+    token: an item is lost and the pipeline stops early."""
+    from engine.rules import expr_key, sym_bound, dataflow_must
+    IB = R1 + 'input_buffer::'
+    n = 0
+    for fn in facts.get(IB + 'try_put_token'):
+        writes = []
+        for pos, s, l, r in assignments(fn):
+            ln = fn.n(fn.strip(l))
+            if ln.get('k') != 'index':
+                continue
+            ix = fn.n(fn.strip(ln['idx']))
+            if ix.get('k') != 'binop' or ix['op'] != '&':
+                continue
+            sides = [ix['l'], ix['r']]
+            mask = [x for x in sides if any(fn.nodes[y].get('k') == 'member' and fn.nodes[y].get('n') == 'array_size' for y in fn.subtree(x))]
+            tok = [x for x in sides if x not in mask]
+            if len(mask) == 1 and len(tok) == 1:
+                writes.append((pos, s, expr_key(fn, tok[0])))
+        if not writes:
+            raise AnalysisBroken('try_put_token: no store into array[token & (array_size-1)] found')
+        for pos, s, tk in writes:
+            def is_dist(x):
+                k = expr_key(fn, x)
+                return k[0] == 'b' and k[1] == '-' and k[2] == tk and k[3][0] == 'm' and k[3][1] == 'low_token'
+
+            def is_cap(x):
+                k = expr_key(fn, x)
+                return k[0] == 'm' and k[1] == 'array_size'
+
+            def guard(a, truth):
+                nd = fn.n(fn.strip(a))
+                if nd.get('k') != 'binop' or nd['op'] not in ('<', '>='):
+                    return False
+                return is_dist(nd['l']) and is_cap(nd['r']) and ((nd['op'] == '<') == truth)
+            ge = edges_where(fn, guard)
+
+            def tr_elem(st, p, e):
+                if isinstance(e, int) and fn.nodes[e].get('k') == 'call' and (fn.callee(e) or {}).get('n') == 'grow':
+                    a = fn.nodes[e].get('a', [])
+                    if a:
+                        an = fn.n(fn.strip(a[0]))
+                        # grow(dist + c), c >= 1
+                        if an.get('k') == 'binop' and an['op'] == '+' and is_dist(an['l']) and (fn.cv(an['r']) or 0) >= 1:
+                            return st | {'B'}
+                    return st - {'B'}
+                return st
+
+            def tr_edge(st, b, si):
+                return st | {'B'} if (b, si) in ge else st
+            before, _ = dataflow_must(fn, tr_elem, tr_edge)
+            n += 1
+            rep.ob('D5', 'K4', fn, 'a parked item is stored only when its token is known to lie inside the ring (line %s)' % fn.nodes[s].get('ln'),
+                   'B' in before.get(pos, frozenset()),
+                   'on some path neither `token - low_token < array_size` was established nor the ring grown to at least '
+                   'token - low_token + 1 slots: the item overwrites / is later mistaken for another token\'s slot', ln=fn.nodes[s].get('ln'))
+    for fn in facts.get(IB + 'grow'):
+        # post-condition used above: array_size >= minimum_size
+        psize = [p['v'] for p in fn.d.get('params', [])]
+        st = [(pos, s, r) for pos, s, l, r in assignments(fn) if last_member(fn, l) == 'array_size']
+        ok = bool(st)
+        for pos, s, r in st:
+            rv = fn.n(fn.strip(r))
+            if rv.get('k') != 'var':
+                ok = False
+                continue
+
+            def big_enough(a, truth, rv=rv):
+                nd = fn.n(fn.strip(a))
+                if nd.get('k') != 'binop' or nd['op'] not in ('<', '>='):
+                    return False
+                l, r2 = fn.n(fn.strip(nd['l'])), fn.n(fn.strip(nd['r']))
+                return l.get('k') == 'var' and l.get('v') == rv['v'] and r2.get('k') == 'var' and r2.get('v') in psize and \
+                    ((nd['op'] == '>=') == truth)
+            ok = ok and dominated_by_edges(fn, pos, edges_where(fn, big_enough))[0]
+        n += 1
+        rep.ob('D5', 'K4', fn, 'grow(m) leaves array_size >= m', ok, 'the new size is not forced up to the requested minimum before it becomes array_size')
+    rep.floor('D5', 2, 'ring store + grow post-condition')
